@@ -652,6 +652,13 @@ func (s *scen) noteSelection(o *outcome) {
 	if len(o.infos) > 0 {
 		s.okSelected = true
 	}
+	// every selected space is a plot file that exists
+	for _, x := range o.infos {
+		if x.Dir < 0 {
+			s.violate("selected-space-has-no-plot-file", map[string]string{"method": o.c.Op}, map[string]interface{}{"space": x.ID, "bl": x.BL})
+			break
+		}
+	}
 	s.run.Count("spaces_reused", int64(nReused))
 	s.run.Count("spaces_created", int64(nCreated))
 }
@@ -1113,16 +1120,21 @@ func (s *scen) opRemove(pick int) {
 		return wsi[i].Ordinal < wsi[j].Ordinal
 	})
 	x := wsi[pick%len(wsi)]
-	err = s.k.ActOnWorkSpace(x.SpaceID, engine.Remove)
-	c := &call{Op: "ActOnWorkSpace(Remove)", Via: "keeper", Args: map[string]interface{}{"id": x.SpaceID, "bl": x.BitLength}, After: nil}
+	// one in three is a Delete: the space's files go too, and later configurations must neither count nor select it
+	act, name := engine.Remove, "Remove"
+	if pick%3 == 2 {
+		act, name = engine.Delete, "Delete"
+	}
+	err = s.k.ActOnWorkSpace(x.SpaceID, act)
+	c := &call{Op: "ActOnWorkSpace(" + name + ")", Via: "keeper", Args: map[string]interface{}{"id": x.SpaceID, "bl": x.BitLength}, After: nil}
 	if err != nil {
 		c.Err = err.Error()
 	} else {
 		delete(s.lastSel, x.SpaceID)
-		s.run.Count("spaces_removed", 1)
+		s.run.Count("spaces_"+strings.ToLower(name)+"d", 1)
 	}
 	s.calls = append(s.calls, c)
-	s.descs = append(s.descs, fmt.Sprintf("Remove #%d of in-use (bl %d)", pick%len(wsi), x.BitLength))
+	s.descs = append(s.descs, fmt.Sprintf("%s #%d of in-use (bl %d)", name, pick%len(wsi), x.BitLength))
 }
 
 // opRestart is clause (e): a second keeper on the same directories with the same wallet.
@@ -1640,5 +1652,5 @@ func main() {
 		}
 	}
 	_ = hex.EncodeToString
-	run.Finish("case = one seeded scenario: 0-6 pre-existing header-only spaces (bit lengths 24-30, 1-3 proof directories, created directly or by a first keeper's ConfigureByBitLength, some removed), then 1-4 operations out of ConfigureBySize / ConfigureByPath / ConfigureByBitLength / ConfigureByFlags / Remove / restart (a quarter of the size calls through api.Server.ConfigureCapacity / ConfigureCapacityByDirs) with targets at sums of plot sizes +-1, the minimum +-1, k*PlotSize(24)+r, free space + plots and 2^62..2^64-1, then a restart comparison; two in five scenarios write miner.proof_dir in a non-canonical way for every keeper they construct (relative to the working directory, through '..', with a trailing '/' or '/.'), while requests name the clean absolute path; every api.ConfigureCapacityByDirs response is compared per directory with the selection; non-trivial = at least one successful configure call selected >= 1 space and a restart comparison happened; distinct by hash of the operation list", run.N(100, 2500))
+	run.Finish("case = one seeded scenario: 0-6 pre-existing header-only spaces (bit lengths 24-30, 1-3 proof directories, created directly or by a first keeper's ConfigureByBitLength, some removed), then 1-4 operations out of ConfigureBySize / ConfigureByPath / ConfigureByBitLength / ConfigureByFlags / Remove / Delete / restart (a quarter of the size calls through api.Server.ConfigureCapacity / ConfigureCapacityByDirs) with targets at sums of plot sizes +-1, the minimum +-1, k*PlotSize(24)+r, free space + plots and 2^62..2^64-1, then a restart comparison; two in five scenarios write miner.proof_dir in a non-canonical way for every keeper they construct (relative to the working directory, through '..', with a trailing '/' or '/.'), while requests name the clean absolute path; every api.ConfigureCapacityByDirs response is compared per directory with the selection; non-trivial = at least one successful configure call selected >= 1 space and a restart comparison happened; distinct by hash of the operation list", run.N(100, 2500))
 }
